@@ -71,6 +71,9 @@ def replay_wiring(inp):
     want_n = 1 + (0 if r1 else 1) + (0 if r2 else 1)
     if n_outline_glyphs != want_n:
         bad["outline glyphs"] = [n_outline_glyphs, want_n]
+    if on and not (all(abs(x - tol / 10) < 1e-12 for x in stubs.normalize_calls) and all(abs(x - tol) < 1e-12 for x in stubs.affine_calls)):
+        bad["tolerances handed to picosvg"] = {"normalize": sorted(set(stubs.normalize_calls)), "affine_between": sorted(set(stubs.affine_calls)), "reuse_tolerance": tol,
+                                               "problem": "shapes are stored and looked up under different normalisation tolerances (or the affine tolerance is not the configured one)"}
     return bad or None
 
 
@@ -147,7 +150,35 @@ def job_wiring(jc):
         jc.expect_reached("copy1 reused", "copy1 stored separately", "copy2 reused")
 
 
+def _group_glyphs(ufo):
+    g1 = RC.mk_color_glyph(ufo, "g1", [P.PaintGlyph(glyph=RC.DONOR, paint=RC.paint_solid())], gid=2)
+    g2 = RC.mk_color_glyph(ufo, "g2", [P.PaintGlyph(glyph=RC.OTHER, paint=RC.paint_solid()), P.PaintGlyph(glyph=RC.TARGET, paint=RC.paint_solid())], gid=3)
+    g3 = RC.mk_color_glyph(ufo, "g3", [P.PaintGlyph(glyph="M1,1 L2,1 L2,9 Z", paint=RC.paint_solid())], gid=4)
+    return g1, g2, g3
+
+
 def replay_groups(inp):
+    """Real _glyph_groups with the witness affine answered by the picosvg stubs."""
+    A = Affine2D(*[float(inp.get(f"A{i}", (1, 0, 0, 1, 0, 0)[i])) for i in range(6)])
+    if abs(A.determinant()) < 1e-2:
+        return None
+    stubs = RC.ReuseStubs(lambda d: "shape" if d in (RC.DONOR, RC.TARGET, COPY2) else "other:" + d, lambda a, b: A)
+    try:
+        with RC.reuse_shims(stubs, stub_transformed=False, stub_algebra=False):
+            cache = SVGMOD.ReuseCache(0.1, GR.GlyphReuseCache(0.1))
+            cfg = type("Cfg", (), {"reuse_tolerance": 0.1})()
+            groups = SVGMOD._glyph_groups(cfg, _group_glyphs(RC.mk_ufo()), cache)
+    except Exception as e:
+        return {"raised": repr(e), "A": list(A)}
+    rr = cache.reuse_results.get("g2.1")
+    fits = all(float(FIXED_MIN) <= v <= float(FIXED_MAX) for v in A)
+    gset = {tuple(sorted(g)) for g in groups}
+    if (rr is not None) != fits:
+        return {"affine": list(A), "fits Fixed 16.16": fits, "copy drawn through <use>": rr is not None, "groups": sorted(gset)}
+    if rr is not None and (rr.glyph_name != "g1.0" or ("g1", "g2") not in gset or max(abs(a - b) for a, b in zip(rr.transform, A)) > 1e-9):
+        return {"affine": list(A), "reuse result": repr(rr), "groups": sorted(gset)}
+    if rr is None and (("g1",) not in gset or ("g2",) not in gset):
+        return {"affine": list(A), "groups": sorted(gset)}
     return None
 
 
@@ -161,10 +192,7 @@ def job_otsvg_groups(jc):
     def body():
         A = RC.sym_affine("A", lin=4, tr=2000)
         stubs0.affine_for = lambda a, b: A
-        ufo = RC.mk_ufo()
-        g1 = RC.mk_color_glyph(ufo, "g1", [P.PaintGlyph(glyph=RC.DONOR, paint=RC.paint_solid())], gid=2)
-        g2 = RC.mk_color_glyph(ufo, "g2", [P.PaintGlyph(glyph=RC.OTHER, paint=RC.paint_solid()), P.PaintGlyph(glyph=RC.TARGET, paint=RC.paint_solid())], gid=3)
-        g3 = RC.mk_color_glyph(ufo, "g3", [P.PaintGlyph(glyph="M1,1 L2,1 L2,9 Z", paint=RC.paint_solid())], gid=4)
+        g1, g2, g3 = _group_glyphs(RC.mk_ufo())
         cache = SVGMOD.ReuseCache(0.1, GR.GlyphReuseCache(0.1))
         cfg = type("Cfg", (), {"reuse_tolerance": 0.1})()
         groups = SVGMOD._glyph_groups(cfg, (g1, g2, g3), cache)
